@@ -12,7 +12,8 @@ RULE = ('cases are context tables (plus Hypothesis tables wider than a machine w
         'concept.properties with the attribute concept (p\', p\'\'); extent == union of object labels over the '
         'reference downset, intent == union of property labels over the reference upset; concept.atoms == the '
         'lattice atoms <= it in atom order; str(concept) == the documented rendering built from reference labels and '
-        'str(lattice) == repr line + those lines. A table is non-trivial when some concept carries >= 2 labels of one '
+        'str(lattice) == repr line + those lines; labels and atoms are checked again on the lattice reloaded by '
+        'fromdict(todict()) and by pickle. A table is non-trivial when some concept carries >= 2 labels of one '
         'kind, or the top or bottom concept carries a label.')
 ASSUMPTIONS = ['reference model vlib/oracle.py', 'bitsets package behaves as documented']
 
@@ -75,6 +76,19 @@ def check_one(case, ctx, deep):
                   'some object/property labels zero or several concepts')
         text = ctx.call('str(lattice)', plain, str, lat)
         ctx.check(text == repr(lat) + '\n' + '\n'.join(lines), 'str(lattice)', plain, lambda: f'str(lattice) = {text!r}')
+        # the same labelling must hold on lattices rebuilt from a serialisation (they are annotated on load)
+        import concepts
+        import pickle
+        d = ctx.call('todict', plain, b.context.todict)
+        reloaded = [('fromdict', ctx.call('fromdict', plain, concepts.Context.fromdict, d).lattice),
+                    ('pickle', ctx.call('pickle', plain, lambda: pickle.loads(pickle.dumps(lat))))]
+        for tag, lat2 in reloaded:
+            for i, c2 in enumerate(lat2):
+                wo = tuple(case['o'][t] for t in objs_at.get(i, ()))
+                wp = tuple(case['p'][t] for t in props_at.get(i, ()))
+                ctx.check(c2.extent == by[i].extent and tuple(c2.objects) == wo and tuple(c2.properties) == wp
+                          and [a.index for a in c2.atoms] == [a.index for a in by[i].atoms], tag + '/labels', plain,
+                          lambda: f'{tag}: concept {c2.extent}: labels {c2.objects!r} / {c2.properties!r}, want {wo!r} / {wp!r}')
         coatoms = len(upper and ref.covers()[1][k - 1])
         head = f'<Lattice object of {len(upper[0])} atoms {k} concepts {coatoms} coatoms at '
         ctx.check(repr(lat).startswith(head), 'repr(lattice)', plain, lambda: f'repr = {repr(lat)!r}, want {head}...')
